@@ -231,7 +231,7 @@ def advertised(prog: Program) -> dict[str, Any]:
     fn = prog.func(f"{MC}:PowerBoundsCalculator.calculate")
     if len(fn.params) != 3:
         raise AnalysisError(f"{fn.qual}: expected (self, metrics_data, working_batteries)")
-    node = prepared(prog, fn)
+    node = prepared(prog, fn, fold_lists=False)
     vfn = Validated(prog, fn, node)
     vcall = vfn.match
     follow = path_follower(prog, fn, stop=(vfn.name,))   # helpers still called are executed on the path
